@@ -423,3 +423,82 @@ def local_call(t):
     if c.get("indirect"):
         return False
     return (c.get("res_krate") or c.get("krate")) in LOCAL_CRATES
+
+
+# ---------------------------------------------------------------------------------------
+# which llfree::Error variants can a function's Err results carry?
+# ---------------------------------------------------------------------------------------
+
+def error_domains(program):
+    """name -> set of llfree::Error discriminants, for local functions returning Result<_, Error>
+    (or Result<_, (Error, ..)>). Fixpoint over direct delegation (`return callee(..)`, `?`,
+    `r => return r`, `.map(..)`)."""
+    import terms as T
+    if hasattr(program, "_errdom"):
+        return program._errdom
+    adt = None
+    for c in program.crates.values():
+        if "llfree::Error" in c.adts:
+            adt = c.adts["llfree::Error"]
+    if adt is None:
+        program._errdom = {}
+        return {}
+    discr = {v["name"]: v["discr"] for v in adt["variants"]}
+    alld = set(discr.values())
+    bodies = {b.name: b for b in program.all_bodies()}
+    cand = {n: b for n, b in bodies.items() if b.local_ty(0).startswith("core::result::Result<") and "Error" in b.local_ty(0)}
+    direct = {}
+    deps = {}
+    for n, b in cand.items():
+        tm = T.Terms(b, program)
+        dset = set()
+        dep = set()
+        unknown = False
+        # every value that can end up as the Err payload: scan all Error aggregates and calls returning Result<.., Error>
+        for bi, si, s in b.stmts():
+            if s["k"] == "assign" and s["rv"]["k"] == "aggregate" and s["rv"]["kind"]["k"] == "adt" and s["rv"]["kind"]["adt"] == "llfree::Error":
+                dset.add(s["rv"]["kind"]["discr"])
+            if s["k"] == "assign" and s["rv"]["k"] == "use" and s["rv"]["op"]["k"] == "const" and s["rv"]["op"].get("adt") == "llfree::Error":
+                v = s["rv"]["op"].get("val")
+                if isinstance(v, int):
+                    dset.add(v)
+                else:
+                    unknown = True
+        for bi, t in b.calls():
+            c = t["callee"]
+            dty = b.local_ty(t["dest"]["l"]) if not t["dest"].get("p") else (t["dest"].get("ty") or "")
+            if c.get("indirect"):
+                if "Error" in dty:
+                    unknown = True
+                continue
+            cn = callee_name(c)
+            if dty.startswith("core::result::Result<") and "Error" in dty:
+                if cn in cand:
+                    dep.add(cn)
+                elif cn in ("core::result::Result::map", "core::result::Result::map_err", "core::option::Option::ok_or",
+                            "core::option::Option::transpose", "core::result::Result::and_then",
+                            "<core::result::Result as core::ops::try_trait::FromResidual>::from_residual"):
+                    pass  # payload comes from values already accounted for
+                elif cn in program_trait_methods(program):
+                    for impl in program_trait_methods(program)[cn]:
+                        dep.add(impl)
+                else:
+                    unknown = True
+        direct[n] = alld if unknown else dset
+        deps[n] = dep
+    dom = {n: set(direct[n]) for n in cand}
+    changed = True
+    while changed:
+        changed = False
+        for n in cand:
+            for d in deps[n]:
+                if d in dom and not dom[d] <= dom[n]:
+                    dom[n] |= dom[d]
+                    changed = True
+    program._errdom = dom
+    return dom
+
+
+def program_trait_methods(program):
+    cg, _ = analyses(program)
+    return cg.trait_impls
